@@ -720,6 +720,19 @@ func vfCheckForwarded(q *vfC01Query, o *vfOutcome) (err error) {
 	return nil
 }
 
+// noteUpstream remembers what the upstream answered (whatever the verdict was:
+// the cache remembers it too).
+func (c *vfC01Conf) noteUpstream(q *vfC01Query, o *vfOutcome) {
+	if c.cacheSeen == nil || o.Upstream == nil {
+		return
+	}
+	for _, a := range o.Asked {
+		if strings.EqualFold(a.Name, q.Name) && a.Qtype == q.Qtype {
+			c.cacheSeen[fmt.Sprintf("%s|%d", strings.ToLower(q.Name), q.Qtype)] = vfDropTTL(o.Upstream.Answer)
+		}
+	}
+}
+
 // vfCheckForwardedCached is vfCheckForwarded for a server with the DNS cache
 // on: a question the upstream has answered before may be served from the
 // cache, which then must be that answer (TTLs age, SVCB parameters come back
@@ -728,12 +741,7 @@ func vfCheckForwardedCached(c *vfC01Conf, q *vfC01Query, o *vfOutcome) (err erro
 	key := fmt.Sprintf("%s|%d", strings.ToLower(q.Name), q.Qtype)
 	lower := func(ss []string) (out string) { return strings.ToLower(strings.Join(ss, "\n")) }
 	if len(o.Asked) > 0 {
-		err = vfCheckForwarded(q, o)
-		if err == nil {
-			c.cacheSeen[key] = vfDropTTL(o.Upstream.Answer)
-		}
-
-		return err
+		return vfCheckForwarded(q, o)
 	}
 	if o.Err != nil || o.BeforeErr != nil || o.Res == nil {
 		return fmt.Errorf("request failed: before=%v err=%v", o.BeforeErr, o.Err)
@@ -1012,10 +1020,12 @@ func vfC01CaseSettle(t *rapid.T, c *vfC01Conf, w *vfWorld, run func(q vfQuery) *
 
 			return vfCheckForwarded(q, o)
 		}
+		c.noteUpstream(q, o)
 		err := check(o)
 		for err != nil && settle > 0 && time.Now().Before(deadline) {
 			time.Sleep(20 * time.Millisecond)
 			o = run(q.vfQuery)
+			c.noteUpstream(q, o)
 			err = check(o)
 			if err == nil {
 				vfC01.Class(tag + "settled_after_retry")
